@@ -22,17 +22,17 @@ package fox
 //@ -- (or -1 when the fragment ends there), so that the '{' count up to `end` is the entry's index + 1
 //@ pred paramsOK(s string, ps []param) = len(ps) == cnt(s, len(s)) && (forall k int :: {ps[k]} 0 <= k && k < len(ps) ==> (ps[k].end == -1 ==> k == len(ps) - 1) && (ps[k].end != -1 ==> 0 < ps[k].end && ps[k].end <= len(s) && cnt(s, ps[k].end) == k + 1))
 
-//@ func parseWildcard props C03,C01
+//@ func parseWildcard props C03,C01,C10
 //@   ensures result == nil || fresh(result)
-//@   ensures @C01 params-ok: keyOK(segment) ==> paramsOK(segment, result)
+//@   ensures @C01,C10 params-ok: keyOK(segment) ==> paramsOK(segment, result)
 //@   -- for any string at all: an entry ends inside the fragment or carries -1
 //@   ensures ends-in-range: forall k int :: {result[k]} 0 <= k && k < len(result) ==> result[k].end == -1 || (0 < result[k].end && result[k].end < len(segment))
 //@   loop 1: invariant params == nil || fresh(params)
 //@   loop 1: invariant ends-in-range: forall k int :: {params[k]} 0 <= k && k < len(params) ==> params[k].end == -1 || (0 < params[k].end && params[k].end < len(segment))
-//@   loop 1: invariant @C01 pos: 0 <= i && (state == stateDefault || state == stateParam || state == stateCatchAll) && (state != stateDefault ==> 0 < start && start <= i)
-//@   loop 1: invariant @C01 pos-ok: keyOK(segment) ==> (state == stateDefault ==> i <= len(segment)) && (state != stateDefault ==> i <= len(segment) && segment[start-1] == '{' && i <= nextClose(segment, start-1) && nextClose(segment, start-1) < len(segment) && segment[nextClose(segment, start-1)] == '}')
-//@   loop 1: invariant @C01 count: keyOK(segment) ==> (state == stateDefault ==> len(params) == cnt(segment, i)) && (state != stateDefault ==> len(params) + 1 == cnt(segment, i))
-//@   loop 1: invariant @C01 entries: keyOK(segment) ==> forall k int :: {params[k]} 0 <= k && k < len(params) ==> (params[k].end == -1 ==> i >= len(segment) && k == len(params) - 1) && (params[k].end != -1 ==> 0 < params[k].end && params[k].end <= len(segment) && params[k].end <= i && cnt(segment, params[k].end) == k + 1)
+//@   loop 1: invariant @C01,C10 pos: 0 <= i && (state == stateDefault || state == stateParam || state == stateCatchAll) && (state != stateDefault ==> 0 < start && start <= i)
+//@   loop 1: invariant @C01,C10 pos-ok: keyOK(segment) ==> (state == stateDefault ==> i <= len(segment)) && (state != stateDefault ==> i <= len(segment) && segment[start-1] == '{' && i <= nextClose(segment, start-1) && nextClose(segment, start-1) < len(segment) && segment[nextClose(segment, start-1)] == '}')
+//@   loop 1: invariant @C01,C10 count: keyOK(segment) ==> (state == stateDefault ==> len(params) == cnt(segment, i)) && (state != stateDefault ==> len(params) + 1 == cnt(segment, i))
+//@   loop 1: invariant @C01,C10 entries: keyOK(segment) ==> forall k int :: {params[k]} 0 <= k && k < len(params) ==> (params[k].end == -1 ==> i >= len(segment) && k == len(params) - 1) && (params[k].end != -1 ==> 0 < params[k].end && params[k].end <= len(segment) && params[k].end <= i && cnt(segment, params[k].end) == k + 1)
 
 //@ func newNodeFromRef props C03,C05,C02
 //@   ensures result != nil && fresh(result) && same(result.key, key) && result.route == route && result.children == children && result.childKeys == childKeys && result.paramChildIndex == paramChildIndex && result.wildcardChildIndex == wildcardChildIndex
